@@ -28,8 +28,8 @@ def register(m):
       "            ret = func(*args, **kwargs)\n            _assert_expected_unit(ret, expected_unit, \"return\", func.__name__)\n            return ret\n",
       "            result = func(*args, **kwargs)\n            _assert_expected_unit(result, expected_unit, \"return\", func.__name__)\n            return result\n", "SILENT")
     m("C04", "rf-components-by-comprehension", QD,
-      "    for item in values:\n        if isinstance(item, SymQuantity):\n            components.append(item)\n        elif isinstance(item, DimensionSymbol):\n            components.append(item.dimension)\n        elif isinstance(item, Symbolic):\n            components.append(item.dimension)\n        else:\n            components.append(item)\n",
-      "    for item in values:\n        if isinstance(item, (DimensionSymbol, Symbolic)) and not isinstance(item, SymQuantity):\n            components.append(item.dimension)\n        else:\n            components.append(item)\n",
+      "        elif isinstance(item, DimensionSymbol):\n            components.append(item.dimension)\n        elif isinstance(item, Symbolic):\n            components.append(item.dimension)\n        else:\n            components.append(item)\n",
+      "        elif isinstance(item, (DimensionSymbol, Symbolic)):\n            components.append(item.dimension)\n        else:\n            components.append(item)\n",
       "SILENT")
     # C08: oracle with the default tolerance computed in a local, verdict through a named variable
     m("C08", "rf-approx-named-verdict", AP,
